@@ -352,3 +352,64 @@ func VerifC04Box(boxType string, n int, large bool, reader bool, symsize bool, a
 	_, _ = encodeWBytes(b)
 	_, _ = encodeSWBytes(b)
 }
+
+// VerifC01Esds: esds boxes built from a descriptor skeleton (ISO/IEC 14496-1 7.2.6) with symbolic
+// field values: ES_Descriptor { DecoderConfigDescriptor { DecoderSpecificInfo } [other]
+// SLConfigDescriptor [other] }. The generic VerifC01Box exploration does not reach a successful
+// esds decode inside its time cap (tags and sizes are all symbolic there), so the structure is
+// fixed here and the values are symbolic. Decode -> encode must reproduce the bytes, both paths.
+// shape bits: 1 four-byte size fields (0x80 0x80 0x80 n), 2 a RegistrationDescriptor between the
+// DecoderConfigDescriptor and the SLConfigDescriptor, 4 an unknown descriptor after the
+// SLConfigDescriptor, 8 a longer DecoderSpecificInfo, 16 no SLConfigDescriptor.
+func VerifC01Esds(shape int, reader bool) {
+	desc := func(tag byte, body []byte) []byte {
+		out := []byte{tag}
+		if shape&1 != 0 {
+			out = append(out, 0x80, 0x80, 0x80)
+		}
+		out = append(out, byte(len(body)))
+		return append(out, body...)
+	}
+	nSpec := 2
+	if shape&8 != 0 {
+		nSpec = 5
+	}
+	dsi := desc(0x05, vfy.Bytes("dsi", nSpec))
+	dc := vfy.Bytes("decconfig", 13) // objectType, streamType|upStream|1, bufferSizeDB(3), maxBitrate(4), avgBitrate(4)
+	dcd := desc(0x04, append(append([]byte{}, dc...), dsi...))
+	es := vfy.Bytes("esid", 2)
+	flags := vfy.U8("esflags") & 0x1f // no stream dependence / URL / OCR fields
+	body := append(append([]byte{}, es...), flags)
+	body = append(body, dcd...)
+	if shape&2 != 0 {
+		body = append(body, desc(0x0d, vfy.Bytes("registration", 4))...)
+	}
+	if shape&16 == 0 {
+		body = append(body, desc(0x06, vfy.Bytes("slconfig", 1))...)
+	}
+	if shape&4 != 0 {
+		body = append(body, desc(0x20, vfy.Bytes("other", 2))...)
+	}
+	esd := desc(0x03, body)
+	n := 8 + 4 + len(esd)
+	in := []byte{0, 0, 0, byte(n), 'e', 's', 'd', 's', 0, 0, 0, 0}
+	in = append(in, esd...)
+	vfy.InputLen(len(in))
+	b, err := decodeEither(in, reader)
+	vfy.Assert(err == nil, "esds with a well-formed descriptor tree decodes")
+	if err != nil {
+		return
+	}
+	vfy.Cover("esds decoded")
+	vfy.Assert(b.Size() == uint64(len(in)), "esds: Size() equals the input length")
+	o1, e1 := encodeSWBytes(b)
+	vfy.Assert(e1 == nil, "esds: EncodeSW succeeds")
+	if e1 == nil {
+		vfy.Assert(bytes.Equal(o1, in), "esds: decode -> EncodeSW reproduces the bytes (descriptor order and size-field widths kept)")
+	}
+	o2, e2 := encodeWBytes(b)
+	vfy.Assert(e2 == nil, "esds: Encode succeeds")
+	if e2 == nil {
+		vfy.Assert(bytes.Equal(o2, in), "esds: decode -> Encode reproduces the bytes")
+	}
+}
